@@ -1,6 +1,6 @@
 from common import COMMON_ASSUME
 
-_MUT = ["SafeStore", "CopyOnReuse", "GuardTypedNil", "BinMarshalerOpts"]
+_MUT = ["SafeStore", "CopyOnReuse", "GuardTypedNil", "BinMarshalerOpts", "ClonesCapLimited", "ParseErrorWins", "SharedSkipCounter"]
 
 PROP = dict(
     module="CSVCodec",
